@@ -50,7 +50,13 @@ VARIANTS = [
     ("C03", "fire", LPDE, "            mse_norm_loss = jnp.array(0.0)", "            mse_norm_loss = jnp.array(1.0)", 0),
     ("C03", "silent", LODE, "total_loss = mse_dyn_loss + mse_initial_condition + mse_observation_loss", "total_loss = mse_observation_loss + mse_dyn_loss + mse_initial_condition", 0),
     ("C03", "silent", LU, "mse_dyn_loss = jnp.mean(jnp.sum(loss_weight * residuals**2, axis=-1))", "mse_dyn_loss = jnp.mean(jnp.sum(residuals**2 * loss_weight, axis=-1))", 0),
+    ("C03", "fire", DLA, "        res = evaluate(*new_args)\n        return res\n\n    def wrapper_pde_non_statio", "        res = evaluate(*args)\n        return res\n\n    def wrapper_pde_non_statio", 0),
+    ("C03", "fire", LU, "if residuals.ndim == sum(b.shape[-1] for b in batches):", "if residuals.ndim == len(batches):", 0),
+    ("C03", "silent", LU, "if residuals.ndim == sum(b.shape[-1] for b in batches):", "if sum(b.shape[-1] for b in batches) == residuals.ndim:", 0),
     # ---- C04
+    ("C04", "fire", "jinns/utils/_utils.py", "if r.shape[-1] == shape[-1] or r.shape[-1] == 1:", "if r.shape[-1] == shape[-1]:", 0),
+    ("C04", "silent", "jinns/utils/_utils.py", "if r.shape[-1] == shape[-1] or r.shape[-1] == 1:", "if r.shape[-1] == 1 or r.shape[-1] == shape[-1]:", 0),
+    ("C04", "fire", LU, "        jax.tree_util.tree_leaves(b_losses_by_facet),\n        jnp.array(0.0),\n", "        jax.tree_util.tree_leaves(b_losses_by_facet),\n", 0),
     ("C04", "fire", BC, "n = jnp.array([[-1, 1, 0, 0], [0, 0, -1, 1]])", "n = jnp.array([[1, -1, 0, 0], [0, 0, -1, 1]])", 0),
     ("C04", "fire", BC, "    border_batch = border_batch[..., facet]\n\n    if isinstance(u, PINN):\n        vmap_in_axes_params", "    border_batch = border_batch[..., 0]\n\n    if isinstance(u, PINN):\n        vmap_in_axes_params", 0),
     ("C04", "fire", LU, 'facet_tree = {"xmin": 0, "xmax": 1, "ymin": 2, "ymax": 3}', 'facet_tree = {"xmin": 0, "xmax": 1, "ymin": 3, "ymax": 2}', 0),
@@ -68,6 +74,9 @@ VARIANTS = [
     ("C07", "fire", SOLVE, "updates, opt_state = optimizer.update(grads, opt_state, params)", "updates, opt_state = optimizer.update(grads, opt_state, last_non_nan_params)", 0),
     ("C07", "silent", SOLVE, "        i += 1\n", "        i = 1 + i\n", 0),
     ("C07", "silent", SOLVE, "OptimizationContainer(params, last_non_nan_params, opt_state),", "OptimizationContainer(params=params, opt_state=opt_state, last_non_nan_params=last_non_nan_params),", 0),
+    ("C07", "fire", SOLVE, "batch_ini, data, param_data, obs_data = get_batch(data, param_data, obs_data)", "batch_ini, data, _, _ = get_batch(data, param_data, obs_data)", 0),
+    ("C07", "silent", SOLVE, "batch_ini, data, param_data, obs_data = get_batch(data, param_data, obs_data)", "batch_ini, *gens = get_batch(data, param_data, obs_data)\n    data, param_data, obs_data = gens", 0),
+    ("C18", "fire", "jinns/utils/_utils.py", "jax.tree_util.tree_map(lambda x: jnp.any(jnp.isnan(x)), pytree)", "jax.tree_util.tree_map(lambda x: ~jnp.all(jnp.isfinite(x)), pytree)", 0),
     ("C18", "fire", SOLVE, "        _check_nan_in_pytree(params),\n        lambda _: last_non_nan_params,\n        lambda _: params,", "        _check_nan_in_pytree(params),\n        lambda _: params,\n        lambda _: last_non_nan_params,", 0),
     ("C18", "fire", SOLVE, "        optimization.last_non_nan_params,\n        loss_container.train_loss_values,", "        optimization.params,\n        loss_container.train_loss_values,", 0),
     ("C19", "fire", SOLVE, "i % validation.call_every == 0,", "i % validation.call_every == 1,", 0),
@@ -76,6 +85,8 @@ VARIANTS = [
     # ---- C08 / C09 / C14 / C15
     ("C08", "fire", DG, "                        minval=self.min_pts[1],\n                        maxval=self.max_pts[1],\n                    ),\n                ]\n            )\n            xmax", "                        minval=self.min_pts[0],\n                        maxval=self.max_pts[1],\n                    ),\n                ]\n            )\n            xmax", 0),
     ("C08", "fire", DG, "return jnp.stack([xmin, xmax, ymin, ymax], axis=-1)", "return jnp.stack([xmin, ymin, xmax, ymax], axis=-1)", 0),
+    ("C09", "silent", DG, "        else:\n            n_eff = self.n\n\n        bstart = self.curr_omega_idx", "        else:\n            n_eff = self.n_start\n\n        bstart = self.curr_omega_idx", 0),
+    ("C09", "silent", DG, "        n_start = n\n        p = None", "        n_start = n if n_start is None else n_start\n        p = None", 0),
     ("C09", "fire", DG, "subkey, domain, shape=(domain.shape[0],), replace=False, p=p", "subkey, domain, shape=(domain.shape[0],), replace=True, p=p", 0),
     ("C09", "fire", DG, "            new.times,\n            start_indices=(new.curr_time_idx,),", "            self.times,\n            start_indices=(new.curr_time_idx,),", 0),
     ("C09", "silent", DG, "bend >= n_eff, _reset_batch_idx_and_permute, _increment_batch_idx, operands", "bend > n_eff - 1, _reset_batch_idx_and_permute, _increment_batch_idx, operands", 0),
